@@ -264,6 +264,8 @@ pub fn run_exec<S: AS>(seed: u64, sseed: u64, mode: Mode, exec_no: u64) -> AccOu
             ok = false;
         }
     }
+    // progress for the watchdog, from the controlling thread
+    sched::PROGRESS.fetch_add(1, std::sync::atomic::Ordering::Relaxed);
     let trace_hash = if mode == Mode::Token { unsafe { sched::inner() }.trace_hash } else { seed };
     let mut nops_total = 0;
     if ok {
